@@ -256,3 +256,20 @@ Proof.
   - eexists; split; vm_compute; reflexivity.
   - repeat constructor.
 Qed.
+
+(* keys with an Ellipsis (model extended after repair 32d9ef9): the Ellipsis stands for full slices of the axes that are
+   not named, so such a key selects exactly what the expanded basic key selects; with more items than axes it raises *)
+Theorem C16_ellipsis_key_is_expanded_basic_key : forall (s : list nat) (b a : list kitem),
+  (length b + length a <= length s)%nat ->
+  plan_get s (KEllip b a) =
+  plan_get s (KBasic (b ++ repeat (KSlice None None None) (length s - (length b + length a)) ++ a)).
+Proof.
+  intros s b a H. unfold plan_get, expand_ellipsis. apply Nat.leb_le in H. rewrite H. reflexivity.
+Qed.
+Print Assumptions C16_ellipsis_key_is_expanded_basic_key.
+Theorem C16_ellipsis_key_too_long_raises : forall (s : list nat) (b a : list kitem),
+  (length s < length b + length a)%nat -> plan_get s (KEllip b a) = PErr.
+Proof.
+  intros s b a H. unfold plan_get, expand_ellipsis. apply Nat.leb_gt in H. rewrite H. reflexivity.
+Qed.
+Print Assumptions C16_ellipsis_key_too_long_raises.
